@@ -4,7 +4,8 @@ from vlib.core import Case
 
 ID = "C11"
 LEAN_MODULE = "Ctrmml.Properties.C11"
-THEOREMS = ["C11_fm_roundtrip", "C11_fm_2op_spec", "C11_psg_frames_partial", "C11_psg_slide_rat_partial"]
+THEOREMS = ["C11_fm_roundtrip", "C11_fm_2op_spec", "C11_psg_frames", "C11_psg_marks", "C11_pitch_node", "C11_pitch_vibrato",
+            "C11_pitch_decode_compact", "C11_pitch_decode_extended", "C11_pitch_form", "C11_psg_slide_rat_partial"]
 LEVEL = "proof"
 STREAM = "data.bank"
 CHUNK = 150
@@ -176,6 +177,10 @@ CORPUS = [
     "ins ; @2 2op 7 1 1 1 1 0",
     # float vs exact-rational difference in a PSG slide (frame 3 is 0 in binary64, 1 in exact arithmetic)
     "ins ; @10 psg 0>1:7",
+    # loop / next index above 255 is emitted as one byte (wraps)
+    "ins ; @1 psg " + " ".join(["15", "14"] * 130) + " | 3 2",
+    "ins ; @m1 " + " ".join(["0", "1"] * 130) + " | 3 2",
+    "ins ; @m1 " + " ".join(["0>100:2", "1"] * 130) + " 0>1:5",
     # errors
     "ins ; @1 fm 1 2 3",
     "ins ; @1 bogus 1 2 3",
@@ -327,6 +332,40 @@ def cases(rng, tier):
         yield Case(req(groups, rng.random() < 0.2), ("malformed",), "malformed")
 
 
+FQ = {"slides": 0, "differ": 0, "examples": []}
+
+
+def extra_fail(case, impl, judge):
+    """never fails a case; collects the Float-vs-exact-rational comparison the judge reports for the
+    single-slide family (`ok fq=<slides>/<differ>[:<first differing slide>]`)"""
+    m = re.search(r"fq=(\d+)/(\d+)(?::(\S+))?", judge)
+    if m and case.family == "psg-slide":
+        FQ["slides"] += int(m.group(1))
+        FQ["differ"] += int(m.group(2))
+        if m.group(3) and len(FQ["examples"]) < 5:
+            FQ["examples"].append(m.group(3))
+    return False
+
+
+def run(tier, seed, replay):
+    """core.run_check + the Float-vs-Q counts of this run added to the evidence"""
+    import json, os
+    from vlib import core
+    FQ.update(slides=0, differ=0, examples=[])
+    me = __import__("sys").modules[__name__]
+    rc = core.run_check(me, tier, seed, replay)
+    if replay is None:
+        p = os.path.join(core.EVID, ID + ".json")
+        ev = json.load(open(p))
+        ev["coverage"]["float_vs_rational"] = {
+            "what": "single PSG slides (initial,target,length) of this run compiled by the model with IEEE binary64 and with exact rationals",
+            "slides_compared": FQ["slides"], "slides_where_bytes_differ": FQ["differ"], "examples": FQ["examples"],
+            "exhaustive": tier == "thorough"}
+        json.dump(ev, open(p, "w"), indent=1, sort_keys=True)
+        open(p, "a").write("\n")
+    return rc
+
+
 def outcome_class(a):
     m = re.match(r"exc=(\S+)", a)
     return "exc=" + m.group(1) if m else a.split(" ")[0][:24]
@@ -336,9 +375,12 @@ def finding_key(case, impl, judge):
     if impl.startswith("crash") or impl == "timeout" or impl.startswith("uncaught"):
         m = re.search(r"at .*?(\w+\.cpp:\d+)", impl)
         return "crash:" + (m.group(1) if m else impl.split(" ")[1] if " " in impl else impl)
+    big = big_group(case.req)
     if "psg" in judge.lower():
-        return "psg"
+        return "psg:index-overflow" if big else "psg"
     if "@m" in judge:
+        if big:
+            return "pitch:index-overflow"
         # step overflow: a written node whose per-frame step does not fit 16 bits
         if step_overflow(case.req):
             return "pitch:step-overflow"
@@ -346,6 +388,13 @@ def finding_key(case, impl, judge):
     if "2op" in judge:
         return "fm2op"
     return "fm"
+
+
+def big_group(reqline):
+    """a definition with more than 255 items: byte / node indices no longer fit one byte"""
+    if not reqline.startswith("ins "):
+        return False
+    return any(len(g.split()) > 256 for g in reqline[4:].split(";"))
 
 
 def step_overflow(reqline):
